@@ -1,5 +1,6 @@
 from vp.core import Query
 from vp import skel
+from vp.skel import KIT_RULES
 
 LEVEL = "model_checking"
 UNITS = ["src/sp/protocol/bus0/bus.c", "src/core/lmq.c", "src/core/list.c", "src/core/pollable.c"]
@@ -32,7 +33,7 @@ def queries(tier):
         defs = dict(d)
         defs["SKEL"] = w
         qs.append(Query("bus-%s%s" % ("raw-" if "RAW" in d else "sb1-" if "SENDBUF" in d else "", skel.tag(w)), "c09/bus.c", tus=TUS, env=ENV,
-                        defs=defs, unwind=40, timeout=300, params={"protocol": "bus0", "raw": "RAW" in d, "skeleton": w}))
+                        defs=defs, unwind=10, unwind_rules=KIT_RULES, timeout=300, params={"protocol": "bus0", "raw": "RAW" in d, "skeleton": w}))
     return qs
 
 MANIFEST = {
